@@ -1,7 +1,7 @@
 // C11 harness: tests run through a real TestRegistry, some of them in a separate process.
 // Scenario (see checks/C11.py):   <all_sep 0|1> <ntests> test*
 //   test ::= :plain <fail 0|1>
-//          | :scr <fork_ok 0|1> <n> wout*n         wout ::= :ei | :er | :x <k> | :k <sig> <core 0|1> | :s <sig> | :c
+//          | :scr <fork_ok 0|1> <n> wout*n         wout ::= :ei | :er <errno> | :x <k> | :k <sig> <core 0|1> | :s <sig> | :c
 //          | :real <n> act*n (x5: plugin pre action, setup, body, teardown, plugin post action) <n> inj*n
 //                                                  act ::= :r <sig> | :e <k> | :f        inj ::= :ei | :er | :re
 // Observation:  per test  ":t <started> <nf> cat*nf <waitpid calls> <SIGCONT seen> <lost>"   cat ::= :x | :k <sig> | :s | :fk | :wi | :w | :ck | :o
@@ -181,7 +181,7 @@ static int waitWrapper(int pid, int* status, int options)
         if (k >= (int)d.ws.size()) { *status = 0; return (int)getpid(); }
         const Wout& w = d.ws[k];
         if (w.kind == 0) { errno = EINTR; return -1; }
-        if (w.kind == 1) { errno = ECHILD; return -1; }
+        if (w.kind == 1) { errno = w.status; return -1; }
         *status = w.status;
         return (int)getpid();
     }
@@ -239,7 +239,7 @@ static int mainLoop()
                 for (int j = 0; j < m; j++) {
                     std::string wk = t.sym(); Wout w; w.kind = 2; w.status = 0;
                     if (wk == "ei") w.kind = 0;
-                    else if (wk == "er") w.kind = 1;
+                    else if (wk == "er") { w.kind = 1; w.status = t.n(); }      // errno of the failing wait
                     else if (wk == "x") w.status = (t.n() & 255) << 8;                       // the kernel's packing of a status word
                     else if (wk == "k") { int sg = t.n(); int core = t.n(); w.status = (sg & 127) | (core ? 128 : 0); }
                     else if (wk == "s") w.status = ((t.n() & 255) << 8) | 0x7f;
